@@ -294,3 +294,4 @@ def run(ctx):
   r2_rewiring(ctx)
   r3_io_coupdate(ctx)
   r4_source_untouched(ctx)
+  shared.rule_performer_translation(ctx, 'C02.R5')
